@@ -31,6 +31,42 @@
 #define CHUNKS 2
 #endif
 
+#define CAP (WIN * CHUNKS + 1)
+
+#ifndef VERIF_REPLAY
+/* realloc contract with the requested size made concrete (one typed object
+ * per possible size 1..CAP - symbolic-size reallocation in a loop exhausts
+ * the solver): NULL, or a fresh block of exactly n bytes holding the old
+ * contents; the old block is released. */
+static size_t g_blk_size;	/* size of the one live line buffer */
+void *realloc(void *old, size_t n)
+{
+	char *q = NULL;
+	size_t k, i;
+
+	VERIF_ASSERT(n >= 1 && n <= CAP, "C07.getline.alloc_size");
+	VERIF_ASSUME(n >= 1 && n <= CAP);
+	if (verif_nd_bool("realloc.fail"))
+		return NULL;
+	for (k = 1; k <= CAP; ++k) {
+		if (n == k) {
+			q = malloc(k);
+			break;
+		}
+	}
+	VERIF_ASSUME(q != NULL);
+	if (old != NULL) {
+		for (i = 0; i < CAP; ++i) {
+			if (i < n && i < g_blk_size)
+				q[i] = ((char *)old)[i];
+		}
+		free(old);
+	}
+	g_blk_size = n;
+	return q;
+}
+#endif
+
 static uint8_t g_win[WIN];
 static size_t g_avail, g_consumed, g_newlines;
 static unsigned int g_chunks;
